@@ -1093,6 +1093,17 @@ def mon_c13_two(spec, run):
 MONITORS["C13two"] = mon_c13_two
 
 
+def mon_c02_two(spec, run):
+    """a second connection alive in the same process: what the FIRST connection's callback is told — on whatever thread — is the reading of
+    the first connection's own stream, once each (the other connection's lines are none of its business)"""
+    keep = {id(e) for e in first_connection_only(run.trace)}
+    tr = [e for e in run.trace if id(e) in keep or (e["k"] in ("msg_cb", "msg_cb_ret") and "cb" in e and e.get("dev") != 2)]
+    return mon_c02_threads(spec, _SubRun(run, tr))
+
+
+MONITORS["C02two"] = mon_c02_two
+
+
 def second_session(trace):
     """the part of a trace that belongs to the second connect() on the same connection object, presented like a first session (its threads
     R2 / S2 renamed to R / S)"""
